@@ -440,6 +440,83 @@ func c03Key(c *c03Cand, opt oc.RouteSelectionOptionsConfig) []int64 {
 	return []int64{b(c.stale), b(c.nhInvalid), -lp, b(!local), aslen, int64(*c.origin), med, b(internal), age, rid, addr}
 }
 
+// c03PairMedComparable restates, from the candidates' own fields, when the decision process may
+// compare the MEDs of two routes: always-compare-med, both AS_PATHs empty of counted ASes, or the
+// same (non-zero) first AS outside confederation segments.
+func c03PairMedComparable(a, b *c03Cand, opt oc.RouteSelectionOptionsConfig) bool {
+	if opt.AlwaysCompareMed {
+		return true
+	}
+	cnt := func(c *c03Cand) (n int, first uint32) {
+		seen := false
+		for _, sg := range c.segs {
+			switch sg.typ {
+			case 2:
+				n += len(sg.as)
+			case 1:
+				n++
+			}
+			// the neighbour AS is the first AS of the first non-confederation segment that has
+			// one; the reserved AS 0 there means "no neighbour AS" (never comparable)
+			if !seen && (sg.typ == 1 || sg.typ == 2) && len(sg.as) > 0 {
+				first, seen = sg.as[0], true
+			}
+		}
+		return
+	}
+	na, fa := cnt(a)
+	nb, fb := cnt(b)
+	return (na == 0 && nb == 0) || (fa != 0 && fa == fb)
+}
+
+// c03PairOracle: for two candidates the documented process is well defined whatever the MEDs
+// (the MED step is skipped when the two are not comparable). Both arrival orders must elect the
+// documented winner.
+func c03PairOracle(o *vOut, cands []*c03Cand) {
+	n := len(cands)
+	if n > 5 {
+		n = 5
+	}
+	for i := 0; i < n; i++ {
+		for j := i + 1; j < n; j++ {
+			a, b := cands[i], cands[j]
+			if a.origin == nil || b.origin == nil || a.srcIdx == b.srcIdx {
+				continue
+			}
+			ka, kb := c03Key(a, SelectionOptions), c03Key(b, SelectionOptions)
+			cmpMed := c03PairMedComparable(a, b, SelectionOptions)
+			if !cmpMed {
+				ka[6], kb[6] = 0, 0
+			}
+			var want *c03Cand
+			switch {
+			case c03KeyLess(ka, kb):
+				want = a
+			case c03KeyLess(kb, ka):
+				want = b
+			default:
+				continue
+			}
+			for _, ord := range [][2]*c03Cand{{a, b}, {b, a}} {
+				m := newC03Impl()
+				m.ann(ord[0])
+				m.ann(ord[1])
+				o.stat("pair_runs", 1)
+				if got := m.ids[m.dest.knownPathList[0]]; got != want.id {
+					how := "med-comparable"
+					if !cmpMed {
+						how = "med-not-comparable"
+					}
+					o.fail("pair-best-not-documented:"+how, map[string]any{"opts": fmt.Sprintf("%+v", SelectionOptions),
+						"cands": []string{a.line(), b.line()}, "arrival_order": []int{ord[0].id, ord[1].id},
+						"reported_best": got, "documented_best": want.id})
+					return
+				}
+			}
+		}
+	}
+}
+
 func c03KeyLess(a, b []int64) bool {
 	for i := range a {
 		if a[i] != b[i] {
@@ -545,6 +622,7 @@ func TestVerifC03(t *testing.T) {
 			}
 			o.stat("decided_by_"+stepNames[dec], 1)
 		}
+		c03PairOracle(o, cands)
 		// 1. arrival-order sweep
 		distinct := true
 		seen := map[string]bool{}
